@@ -216,6 +216,137 @@ def run_files(ctx, n):
         os.remove(p)
 
 
+RECORDED_KEYS = ["md5", "etag", "checksum"]
+FS_CONFIGS = ["local-info", "recording-local", "datafs", "datafs-info"]
+
+
+def _legacy_ref(data):
+    """the single-read legacy digest (every content here fits one read)"""
+    return hashlib.md5(data.replace(b"\r\n", b"\n") if _is_text_ref(data[:512]) else data).hexdigest()
+
+
+def _expected(name, data):
+    return _legacy_ref(data) if name.lower() == "md5-dos2unix" else ref_digest(name, data)
+
+
+def hashfile_fs_case(ctx, case):
+    """hash_file() - the entry point build()/index save/migration use - over a filesystem that already *records*
+    hashes for its files: a local filesystem whose info (the info= argument, or info() itself) carries md5 / etag /
+    checksum fields, or a DataFileSystem over an index whose entries are recorded under `index_hash`.  Every record is
+    accurate (the raw digest of the stored bytes), so whatever shortcut the library takes, the digest it answers for
+    algorithm `name` must be the digest of the content under *that* algorithm."""
+    from dvc_objects.fs.local import LocalFileSystem
+
+    from dvc_data.hashfile.hash import hash_file
+
+    cfg, name, recorded = case["hashfile_fs"], case["name"], case["recorded"]
+    datas = [bytes.fromhex(x) for x in case["contents"]]
+    d = ctx.mkdtemp()
+    local = LocalFileSystem()
+    paths = []
+    if cfg in ("local-info", "recording-local"):
+        rec = {}
+        for i, data in enumerate(datas):
+            p = os.path.join(d, f"f{i}")
+            with open(p, "wb") as f:
+                f.write(data)
+            paths.append(p)
+            rec[p] = {k: hashlib.md5(data).hexdigest() for k in recorded}
+
+        if cfg == "recording-local":
+
+            class RecordingFS(LocalFileSystem):
+                def info(self, path, **kw):
+                    return {**super().info(path, **kw), **rec.get(path, {})}
+
+            fs = RecordingFS()
+            infos = [fs.info(p) if case["info_arg"] else None for p in paths]
+        else:
+            fs = local
+            infos = [{**fs.info(p), **rec[p]} for p in paths]
+    else:
+        from dvc_data.fs import DataFileSystem
+        from dvc_data.hashfile.db import HashFileDB
+        from dvc_data.hashfile.hash_info import HashInfo
+        from dvc_data.hashfile.meta import Meta
+        from dvc_data.index import DataIndex, DataIndexEntry, ObjectStorage
+
+        ih = case["index_hash"]
+        oids = [_expected(ih, data) for data in datas]
+        # a legacy store names a CRLF text and its LF twin alike (that is the point of the algorithm): the twins
+        # then live in one store each, mounted at their own keys; otherwise one store serves the whole index
+        per_entry = len(set(oids)) < len(oids)
+        entries, odbs = {}, []
+        for i, (data, oid) in enumerate(zip(datas, oids)):
+            odb = HashFileDB(local, os.path.join(d, f"odb{i}" if per_entry else "odb"), hash_name=ih)
+            odb.add_bytes(oid, data)
+            key = ("sub", f"f{i}") if case.get("nested") else (f"f{i}",)
+            entries[key] = DataIndexEntry(key=key, meta=Meta(size=len(data)), hash_info=HashInfo(name=ih, value=oid))
+            paths.append("/".join(key))
+            odbs.append((key, odb))
+        index = DataIndex(entries)
+        if per_entry:
+            for key, odb in odbs:
+                index.storage_map.add_cache(ObjectStorage(key, odb))
+        else:
+            index.storage_map.add_cache(ObjectStorage((), odbs[0][1]))
+        fs = DataFileSystem(index)
+        infos = [fs.info(p) if cfg == "datafs-info" else None for p in paths]
+
+    got = []
+    for p, info, data in zip(paths, infos, datas):
+
+        def f():
+            with fs.open(p, "rb") as fobj:
+                served = fobj.read()
+            meta, hi = hash_file(p, fs, name, info=info)
+            return {"served_intact": served == data, "hash_name": hi.name, "value": hi.value, "size": meta.size}
+
+        k, v = safe_call(f)
+        got.append(v if k == "ok" else {"err": v})
+    exp = [{"served_intact": True, "hash_name": name, "value": _expected(name, data), "size": len(data)} for data in datas]
+    ctx.oracle(got == exp, case, {"why": "hash_file over a filesystem with recorded hashes: digest is not the digest of the content under the asked algorithm",
+                                  "impl": got, "expected": exp})
+    if len(datas) == 2 and name == "md5-dos2unix":
+        ctx.oracle("err" not in got[0] and "err" not in got[1] and got[0]["value"] == got[1]["value"], case,
+                   {"why": "CRLF and LF variants hash differently", "lf": got[0], "crlf": got[1]})
+
+
+def run_hashfile_fs(ctx, n):
+    rng = ctx.rng
+    for _ in range(n):
+        data, kind = gen_content(rng)
+        if rng.random() < 0.3:  # more line-ending material than the uniform family choice gives
+            data = b"".join(rng.choice([b"alpha", b"b", b"", b"\t x"]) + rng.choice([b"\n", b"\r\n"]) for _ in range(rng.randrange(1, 40)))
+            kind = "lines"
+        contents = [data]
+        twin = False
+        if data and b"\r\n" not in data and b"\n" in data:
+            crlf = data.replace(b"\n", b"\r\n")
+            if _is_text_ref(data[:512]) and _is_text_ref(crlf[:512]):
+                contents, twin = [data, crlf], True
+        cfg = rng.choice(FS_CONFIGS)
+        name = rng.choice(["md5", "sha256", "md5-dos2unix", "md5-dos2unix", "blake3", "sha1"])
+        case = {"hashfile_fs": cfg, "name": name, "contents": [c.hex() for c in contents]}
+        if cfg.startswith("datafs"):
+            case["index_hash"] = rng.choice(["md5", "md5", "md5-dos2unix", "sha256"])
+            case["nested"] = rng.random() < 0.3
+            case["recorded"] = [case["index_hash"]]
+        else:
+            case["recorded"] = sorted(set(["md5"] if rng.random() < 0.7 else []) | set(rng.sample(RECORDED_KEYS, rng.randrange(0, 3))))
+            case["info_arg"] = cfg == "local-info" or rng.random() < 0.5
+        ctx.case(case)
+        ctx.count("hashfile_fs:" + cfg)
+        ctx.count("hashfile_fs name:" + name)
+        ctx.count("hashfile_fs recorded:" + ",".join(case["recorded"]))
+        ctx.count("hashfile_fs content:" + kind)
+        if twin:
+            ctx.count("hashfile_fs crlf-lf pair")
+        if name == "md5-dos2unix" and "md5" in case["recorded"] and any(b"\r\n" in c and _is_text_ref(c[:512]) for c in contents):
+            ctx.count("hashfile_fs legacy name, recorded md5, CRLF text")
+        hashfile_fs_case(ctx, case)
+
+
 def run_overlap(ctx, n):
     """several hashing streams alive at once (alternating reads, a finished stream inspected after another was
     opened, threads): each digest is that of its own content"""
@@ -334,7 +465,7 @@ def run_dos2unix(ctx, n):
 def run(ctx):
     ctx.rule = (
         "contents from 8 families (text, CRLF, CR runs, binary, NUL, 30%-threshold mixes, CRLF straddling 511/512, empty) x "
-        "9 algorithm names x random read schedules through a short-read file object; whole-file APIs on real files up to >1 MiB; 2-4 streams alive at once (alternating reads, inspected after the others were opened, threads); "
+        "9 algorithm names x random read schedules through a short-read file object; whole-file APIs on real files up to >1 MiB; hash_file (with / without info=) over filesystems that record hashes for their files (local info carrying md5/etag/checksum, DataFileSystem over md5 / md5-dos2unix / sha256 indexes) with CRLF/LF twins; 2-4 streams alive at once (alternating reads, inspected after the others were opened, threads); "
         "non-trivial = at least one non-empty chunk; distinct = sha256 of (name, readsize, chunks)"
     )
     ctx.assumptions = ["hashlib/blake3 hashers are functions of the concatenation of their updates (H is a parameter of every theorem)"]
@@ -342,18 +473,23 @@ def run(ctx):
     run_dos2unix(ctx, ctx.n(300, 3000))
     run_streams(ctx, ctx.n(1200, 15000))
     run_files(ctx, ctx.n(150, 1500))
+    run_hashfile_fs(ctx, ctx.n(200, 2000))
     run_overlap(ctx, ctx.n(150, 1500))
 
 
 def search(ctx):
     run_streams(ctx, 20000)
     run_files(ctx, 1500)
+    run_hashfile_fs(ctx, 2000)
     run_overlap(ctx, 1500)
 
 
 def replay(ctx, payload):
     c = payload.get("case") or payload.get("diverging_case")
-    if "chunks" in c and "name" in c:
+    if "hashfile_fs" in c:
+        ctx.case(c)
+        hashfile_fs_case(ctx, c)
+    elif "chunks" in c and "name" in c:
         chunks = [bytes.fromhex(x) for x in c["chunks"]]
         ans = ctx.driver.ask({"op": "hashstream", "name": c["name"], "chunks": c["chunks"]})
         impl = impl_stream(c["name"], chunks, c["readsize"])
